@@ -3,6 +3,7 @@ package main
 // Trusted library contracts ("models"). Each is listed in evidence when used.
 
 import (
+	"fmt"
 	"go/types"
 	"strings"
 
@@ -98,7 +99,40 @@ func strToLower(x *Exec, st *State, fr *Frame, in ssa.Instruction, fn *ssa.Funct
 	k(st, Term{x.define(st, "lower", "Int", app("str_lower", s.S)), s.T})
 }
 
+// utils.Min / utils.Max (generic, variadic): exact when the variadic slice has a known small length.
+func utilsMinMax(isMin bool) modelFn {
+	return func(x *Exec, st *State, fr *Frame, in ssa.Instruction, fn *ssa.Function, args []Val, k callCont) {
+		x.used("utils.Min/utils.Max (least / greatest of the arguments)")
+		a := args[0].(Term)
+		srt := x.sortOf(a.T)
+		p := map[string]string{"Int": "i", "Real": "r"}[srt]
+		if p == "" {
+			bail("utils.Min/Max on sort %s", srt)
+		}
+		op := p + "max"
+		if isMin {
+			op = p + "min"
+		}
+		cur := a.S
+		if len(args) > 1 {
+			s := args[1].(Term).S
+			n, ok := numeral(simplifyLen(app("s_len", s), st))
+			if !ok || n > 8 {
+				bail("utils.Min/Max with a variadic slice of unknown length")
+			}
+			name, asrt := x.arrName(a.T)
+			arr := x.getArr(st, name, asrt)
+			for i := int64(0); i < n; i++ {
+				cur = app(op, cur, app("select", app("select", arr, app("s_arr", s)), app("+", app("s_off", s), fmt.Sprint(i))))
+			}
+		}
+		k(st, Term{x.define(st, "mm", srt, cur), a.T})
+	}
+}
+
 var models = map[string]modelFn{
+	"github.com/projecteru2/core/utils.Min": utilsMinMax(true),
+	"github.com/projecteru2/core/utils.Max": utilsMinMax(false),
 	"google.golang.org/grpc/metadata.FromIncomingContext": mdFromIncoming,
 	"strings.ToLower": strToLower,
 	"context.WithTimeout":  ctxDerive("context.WithTimeout", true),
